@@ -610,6 +610,68 @@ fn type_graphs(cx: &Ctx, thorough: bool) -> u64 {
 }
 
 // ---------------------------------------------------------------------------------------------
+// (7) newtype graphs: three newtypes whose targets range over key types, non-key types, each
+//     other (chains, cycles that do or do not contain their entry) and imported newtypes, used as
+//     map keys / set elements next to a misspelt key type
+
+fn newtype_graphs(cx: &Ctx) -> u64 {
+    let targets = ["u8", "string", "f32", "vec<u8>", "Na", "Nb", "Nc", "dep::ExtN", "dep::Missing", "option<Na>"];
+    let mut jobs = Vec::new();
+    for a in targets {
+        for b in targets {
+            for c in targets {
+                jobs.push(format!(
+                    "import dep;\nnewtype Na = {a};\nnewtype Nb = {b};\nnewtype Nc = {c};\nstruct Uses {{\n    s @ 1 = set<Na>;\n    m @ 2 = map<Nb -> u8>;\n    k @ 3 = map<Nc -> Na>;\n}}\n"
+                ));
+            }
+        }
+    }
+    // the "did you mean" path: an unknown key type next to the same newtypes
+    for a in targets {
+        for b in targets {
+            jobs.push(format!("newtype Na = {a};\nnewtype Nb = {b};\nnewtype Nc = Nb;\nstruct Uses {{\n    m @ 1 = map<Nx -> u8>;\n    s @ 2 = set<dep::Nope>;\n}}\n"));
+        }
+    }
+    let n = jobs.len() as u64;
+    jobs.par_iter().for_each(|t| {
+        for e in [Env::Resolvable, Env::Empty, Env::DepRecursive] {
+            check_total(cx, front::MAIN, t, e, "newtype-graph");
+        }
+    });
+    n
+}
+
+// ---------------------------------------------------------------------------------------------
+// (8) numeric literals at the boundaries of their ranges: ids (alone, in pairs, duplicated),
+//     service versions, constant values, array lengths
+
+fn numeric_literals(cx: &Ctx) -> u64 {
+    let ids = ["0", "1", "2", "4294967294", "4294967295", "4294967296", "-1", "00", "18446744073709551616"];
+    let mut jobs: Vec<String> = Vec::new();
+    for a in ids {
+        for b in ids {
+            jobs.push(format!("struct S {{ a @ {a} = u8; b @ {b} = u8; c @ {a} = u8; }}"));
+            jobs.push(format!("enum E {{ A @ {a}; B @ {b} = u8; C @ {b}; }}"));
+            jobs.push(format!("service S {{ uuid = 6d0b2b1e-52f2-4a3c-8d2e-0a5c1f0e9b01; version = {a}; fn f @ {a}; fn g @ {b}; fn h @ {a}; event e @ {b}; event e2 @ {a}; event e3 @ {b}; }}"));
+            jobs.push(format!("struct S {{ a @ 1 = [u8; {a}]; b @ 2 = [[u8; {b}]; {a}]; }}"));
+            jobs.push(format!("const N = u32({a});\nconst M = i64({b});\nstruct S {{ a @ 1 = [u8; N]; b @ 2 = [u8; M]; }}"));
+            jobs.push(format!("service S {{ uuid = 6d0b2b1e-52f2-4a3c-8d2e-0a5c1f0e9b01; version = 1; fn f @ 1 = struct {{ a @ {a} = u8; b @ {b} = u8; c @ {a} = u8; }} event e @ 1 = enum {{ A @ {a}; B @ {b}; C @ {a}; }} }}"));
+        }
+    }
+    let vals = ["0", "-0", "255", "256", "-128", "-129", "65535", "65536", "4294967295", "4294967296", "-2147483648", "-2147483649", "18446744073709551615", "18446744073709551616", "-9223372036854775808", "-9223372036854775809", "99999999999999999999999999"];
+    for kw in ["u8", "i8", "u16", "i16", "u32", "i32", "u64", "i64"] {
+        for v in vals {
+            jobs.push(format!("const C = {kw}({v});\nstruct S {{ a @ 1 = [u8; C]; }}"));
+        }
+    }
+    let n = jobs.len() as u64;
+    jobs.par_iter().for_each(|t| {
+        check_total(cx, front::MAIN, t, Env::Resolvable, "numeric-literals");
+    });
+    n
+}
+
+// ---------------------------------------------------------------------------------------------
 // (5) identifiers at every naming position
 
 pub fn ident_alphabet() -> Vec<&'static str> {
@@ -790,6 +852,27 @@ pub fn run(tier: Tier) -> ! {
     let graphs = type_graphs(&cx, thorough);
     let n6 = cx.evals.load(Ordering::Relaxed);
 
+    // (7) newtype graphs
+    let nt_graphs = newtype_graphs(&cx);
+
+    // (8) numeric literals
+    let numeric = numeric_literals(&cx);
+
+    // (9) the same service uuid in several schemas: whatever is reported must be reported the
+    //     same way on every run (each run builds its own hash maps)
+    for text in [
+        "import dep;\nservice A { uuid = 5c7d1a59-8ba1-4d0a-9b5e-2f0c2d1e7a01; version = 1; }\n",
+        "import dep;\nimport other;\nservice A { uuid = 5c7d1a59-8ba1-4d0a-9b5e-2f0c2d1e7a01; version = 1; }\nservice B { uuid = 5c7d1a59-8ba1-4d0a-9b5e-2f0c2d1e7a01; version = 1; }\n",
+        "import other;\nimport dep;\nstruct S { a @ 1 = dep::Ext; b @ 2 = other::Ext; }\n",
+        "service A { uuid = 6d0b2b1e-52f2-4a3c-8d2e-0a5c1f0e9b01; version = 1; }\nservice B { uuid = 6d0b2b1e-52f2-4a3c-8d2e-0a5c1f0e9b01; version = 1; }\nservice C { uuid = 6d0b2b1e-52f2-4a3c-8d2e-0a5c1f0e9b01; version = 1; }\n",
+    ] {
+        for &e in ENVS {
+            for _ in 0..12 {
+                check_total(&cx, front::MAIN, text, e, "duplicate-uuid");
+            }
+        }
+    }
+
     let evals = cx.evals.load(Ordering::Relaxed);
     let distinct: usize = cx.nontrivial.iter().map(|m| m.lock().unwrap().len()).sum();
     if distinct < 1000 || cx.generated.load(Ordering::Relaxed) < 100 || cx.broken_links.load(Ordering::Relaxed) < 100 {
@@ -826,6 +909,8 @@ pub fn run(tier: Tier) -> ! {
         "markdown_blocks": BLOCKS.len(),
         "type_graph_schemas": graphs,
         "type_graph_runs": n6 - n5,
+        "newtype_graph_schemas": nt_graphs,
+        "numeric_literal_schemas": numeric,
         "import_environments": ENVS.iter().map(|e| format!("{e:?}")).collect::<Vec<_>>(),
         "syntactically_valid": cx.syntax_ok.load(Ordering::Relaxed),
         "formatted": cx.formatted.load(Ordering::Relaxed),
